@@ -20,6 +20,9 @@ type FuncResult struct {
 
 // VerifyFunc generates the obligations of the function with the given key.
 func (w *World) VerifyFunc(key string) (res *FuncResult) {
+	if strings.HasPrefix(key, "stream.") && strings.Contains(key, "/refines#") {
+		return w.verifyRefinement(key)
+	}
 	res = &FuncResult{Key: key}
 	fi := w.Funcs[key]
 	c := w.CS.ByKey[key]
@@ -27,6 +30,10 @@ func (w *World) VerifyFunc(key string) (res *FuncResult) {
 		fi = w.closureInfo(key)
 	}
 	inst := ""
+	if i, j := strings.Index(key, "["), strings.Index(key, "]"); i >= 0 && j > i && fi != nil && fi.Lit != nil {
+		// a closure inside an instance of a generic function
+		inst = key[i+1 : j]
+	}
 	if i := strings.Index(key, "["); i >= 0 && strings.HasSuffix(key, "]") && fi == nil {
 		// an instance of a generic function or of a method of a generic type: gtree.f[jsonNode]
 		inst = key[i+1 : len(key)-1]
@@ -135,6 +142,7 @@ func (x *Exec) run(res *FuncResult) {
 			x.paramFacts(st, v)
 			if p, ok := c.ParamProto[nm.Name]; ok {
 				v.Proto = x.W.protoOf(p)
+				x.paramSubjects(st, c, nm.Name, v, names)
 			}
 			args = append(args, v)
 			if nm.Name != "_" {
@@ -148,9 +156,12 @@ func (x *Exec) run(res *FuncResult) {
 		// a closure: the enclosing function's parameters were bound above; now the captured locals and the literal's own parameters
 		parentC := x.W.CS.ByKey[fi.Key[:strings.LastIndex(fi.Key, "#")]]
 		if parentC != nil {
-			for nm, v := range names {
-				if p, ok := parentC.ParamProto[nm]; ok && v != nil {
-					v.Proto = x.W.protoOf(p)
+			for _, nm := range sortedKeys(parentC.ParamProto) {
+				if v := names[nm]; v != nil {
+					v.Proto = x.W.protoOf(parentC.ParamProto[nm])
+					if _, own := c.ParamSubj[nm]; !own {
+						x.paramSubjects(st, parentC, nm, v, names)
+					}
 				}
 			}
 		}
@@ -162,6 +173,13 @@ func (x *Exec) run(res *FuncResult) {
 			x.paramFacts(st, val)
 			st.vars[v] = val
 			names[v.Name()] = val
+		}
+		// the closure's own contract may declare the protocol of a captured variable
+		for _, nm := range sortedKeys(c.ParamProto) {
+			if v := names[nm]; v != nil {
+				v.Proto = x.W.protoOf(c.ParamProto[nm])
+				x.paramSubjects(st, c, nm, v, names)
+			}
 		}
 		lsig := fr.info.TypeOf(fi.Lit).(*types.Signature)
 		var largs []*Val
@@ -205,8 +223,12 @@ func (x *Exec) run(res *FuncResult) {
 	})
 	x.heapTypingAll(st)
 	x.assumeWF(st)
+	x.wrapCfail("channel subjects of "+c.Key, func() { x.bindCarriedSubjects(st, names) })
 	x.wrapCfail("precondition of "+c.Key, func() {
 		for _, r := range c.Requires {
+			x.assume(st, env.HypFormula(r.Expr))
+		}
+		for _, r := range c.Relies {
 			x.assume(st, env.HypFormula(r.Expr))
 		}
 	})
@@ -243,6 +265,48 @@ func (x *Exec) run(res *FuncResult) {
 	res.Paths = paths
 }
 
+// paramSubjects: "param X follows S(a, b)": the subjects of the stream value X are unknown but fixed; they get the
+// names a, b (typed as the stream's subject declaration says).
+func (x *Exec) paramSubjects(st *St, c *Contract, pname string, v *Val, names map[string]*Val) {
+	sn := c.ParamSubj[pname]
+	if len(sn) == 0 {
+		return
+	}
+	sc := x.W.CS.ByKey[x.W.protoOf(c.ParamProto[pname])]
+	v.Subj = nil
+	for i, nm := range sn {
+		sv := x.freshSubject(st, sc, i, nm)
+		v.Subj = append(v.Subj, sv)
+		names[nm] = sv
+	}
+}
+
+// nullSubject: the nil subject (position i) of stream sc.
+func (x *Exec) nullSubject(sc *Contract, i int) *Val {
+	var ty types.Type = types.Universe.Lookup("any").Type()
+	if sc != nil && i < len(sc.SubjTypes) && sc.SubjTypes[i] != "" {
+		if t, ok := x.W.parseTypeText(sc.SubjTypes[i], x.W.mainPkg()); ok {
+			ty = t
+		}
+	}
+	return &Val{T: Null, Ty: ty}
+}
+
+// freshSubject: an unknown subject value of stream sc (position i).
+func (x *Exec) freshSubject(st *St, sc *Contract, i int, nm string) *Val {
+	var ty types.Type = types.Universe.Lookup("any").Type()
+	if sc != nil && i < len(sc.SubjTypes) && sc.SubjTypes[i] != "" {
+		t, ok := x.W.parseTypeText(sc.SubjTypes[i], x.W.mainPkg())
+		if !ok {
+			cfail("stream %s: unknown subject type %s", sc.Key, sc.SubjTypes[i])
+		}
+		ty = t
+	}
+	sv := x.freshVal(st, nm, ty)
+	x.paramFacts(st, sv)
+	return sv
+}
+
 func (x *Exec) paramFacts(st *St, v *Val) {
 	if v.T != nil && v.T.Sort == SRef {
 		x.assume(st, Or(Eq(v.T, Null), Select(st.alloc(), v.T)))
@@ -271,7 +335,10 @@ func (x *Exec) checkPost(st *St, fr *Frame, v *Val, names map[string]*Val) {
 			x.wrapCfail("subjects of "+c.Key, func() {
 				for i, e := range c.YieldsArgs {
 					goal := False
-					if v != nil && i < len(v.Subj) && v.Subj[i] != nil && v.Subj[i].T != nil {
+					if got != want && x.W.protoCompatible(got, want) {
+						// a value of a refining stream is returned: in the promised view its subjects are nil
+						goal = Eq(senv.tr(e).T, Null)
+					} else if v != nil && i < len(v.Subj) && v.Subj[i] != nil && v.Subj[i].T != nil {
 						goal = Eq(senv.tr(e).T, v.Subj[i].T)
 					}
 					x.emit(st, oblTemplate{kind: "proto", label: fmt.Sprintf("subject%d", i), clause: "the returned iterator's subject is " + e.String()}, nil, goal)
@@ -320,10 +387,16 @@ func (x *Exec) checkPost(st *St, fr *Frame, v *Val, names map[string]*Val) {
 	}
 	oldEnv := &CEnv{X: x, Names: names, St: x.entry, Pkg: fi.Pkg}
 	env := &CEnv{X: x, Names: post, St: st, Pkg: fi.Pkg, Old: oldEnv}
+	if len(c.Carries) > 0 && fi.Lit == nil {
+		x.checkCarriedResults(st, c, rvals, env)
+	}
 	x.applyGhostSets(st, c, env)
 	x.wrapCfail("postcondition of "+c.Key, func() {
 		for _, e := range c.Ensures {
 			x.emit(st, oblTemplate{kind: "post", label: e.Label, clause: e.Text, props: e.Props, pos: e.Pos}, nil, env.Formula(e.Expr))
+		}
+		for _, e := range c.Relies {
+			x.emit(st, oblTemplate{kind: "rely", label: e.Label, clause: e.Text, props: e.Props, pos: e.Pos}, nil, env.Formula(e.Expr))
 		}
 	})
 	if c.RetProto != "" {
@@ -525,7 +598,7 @@ func reflectTag(tag, key string) (string, bool) {
 
 // FuncKeysWithContracts lists the function contracts (not loops) bound to repository functions.
 func (w *World) ContractedFuncs() []string {
-	var out []string
+	out := w.RefinementUnits()
 	for _, c := range w.CS.Order {
 		if c.Kind == "closure" {
 			if fi := w.closureInfo(c.Key); fi != nil && !c.Flags["assumed"] {
